@@ -240,6 +240,29 @@ pub fn c09(opts: &Opts) -> Report {
             };
             ctx.rep.eval();
             let full = Range::Range(None, None, false);
+            if i % 40 == 5 || i % 40 == 25 {
+                // join with a self-overlapping separator, then split on it again: items ending in a proper prefix of the
+                // separator make the joined text split differently from the list that was joined
+                let s2 = ctx.rng.pick(&["aa", "--", "::", "→→", "abab", "-=-"]).to_string();
+                let first: String = s2.chars().take(1 + ctx.rng.below(s2.chars().count() - 1)).collect();
+                let n = 2 + ctx.rng.below(4);
+                let items: Vec<String> = (0..n).map(|_| match ctx.rng.below(4) { 0 => format!("{}{first}", gens::word(&mut ctx.rng)), 1 => first.clone(), 2 => format!("{first}{}", gens::word(&mut ctx.rng)), _ => gens::word(&mut ctx.rng) }).collect();
+                let x = items.join(",");
+                let s3 = ctx.rng.pick(&["+", "", ",", "aa"]).to_string();
+                let mut ops = vec![Op::Split(",".into(), full.clone()), Op::Join(s2.clone()), Op::Split(s2.clone(), full.clone())];
+                match ctx.rng.below(3) { 0 => ops.push(Op::Join(s3)), 1 => ops.push(Op::Slice(gens::range(&mut ctx.rng))), _ => { ops.push(Op::Map(vec![Op::Upper])); ops.push(Op::Join(s3)); } }
+                let t = triple(ctx, &ops, &x, false);
+                ctx.rep.bump("overlapping_rejoin");
+                ctx.rep.nontrivial(&(x.clone(), s2.clone(), t.text.clone()));
+                if !judge(ctx, "C09", &t, &ops, &x, "C09_code_does_this") { return; }
+                // the same joined text, split by a later, independent call (a single-split section, then a general one)
+                let joined = items.join(&s2);
+                for ops2 in [vec![Op::Split(s2.clone(), Range::Index(1))], vec![Op::Split(s2.clone(), full.clone()), Op::Join("|".into())]] {
+                    let t2 = triple(ctx, &ops2, &joined, false);
+                    if !judge(ctx, "C09", &t2, &ops2, &joined, "C09_code_does_this") { return; }
+                }
+                return;
+            }
             // identity 1: split then (implicit) join restores the text
             let ops1 = vec![Op::Split(s.clone(), full.clone())];
             let t1 = triple(ctx, &ops1, &x, false);
@@ -285,7 +308,8 @@ pub fn c09(opts: &Opts) -> Report {
 
 /* ---------------- C14 ------------------------------------------------------ */
 fn regex_text(rng: &mut Rng) -> String {
-    let words = ["hello", "Hello", "HELLO world", "foo bar", "a1b22c333", "line one\nLine Two\nline three", "", "aaa", "ab", "file.txt", "x{2}", "ooo", "éa É", "a.c abc"];
+    let words = ["hello", "Hello", "HELLO world", "foo bar", "a1b22c333", "line one\nLine Two\nline three", "", "aaa", "ab", "file.txt", "x{2}", "ooo", "éa É", "a.c abc",
+                 "ab12 cd345", "name.surname@example.com", "xfoo food", "all ll wellx"];
     let mut s = rng.pick(&words).to_string();
     if rng.chance(1, 3) { s.push(' '); s.push_str(*rng.pick(&words)); }
     s
@@ -484,11 +508,22 @@ pub fn c16(opts: &Opts) -> Report {
                 0 => Op::Reverse,
                 1 => Op::Substring(gens::range(&mut ctx.rng)),
                 2 | 3 => Op::Pad(ctx.rng.below(14) as u128, gens::pad_char(&mut ctx.rng), gens::pdir(&mut ctx.rng)),
-                4 | 5 => Op::Trim(if ctx.rng.chance(1, 2) { String::new() } else if ctx.rng.chance(1, 3) { " \t".into() } else { gens::simple_arg(&mut ctx.rng) }, gens::tdir(&mut ctx.rng)),
+                4 | 5 => Op::Trim(if ctx.rng.chance(1, 2) { String::new() } else if ctx.rng.chance(1, 3) { " \t".into() } else if ctx.rng.chance(1, 3) { ctx.rng.pick(&["A", "-", "*", "xy", "-=", "a ", "0"]).to_string() } else { gens::simple_arg(&mut ctx.rng) }, gens::tdir(&mut ctx.rng)),
                 6 => Op::Upper,
                 _ => Op::Lower,
             };
             ctx.rep.eval();
+            // characters that agree with a member of the trim set / the pad character in their low byte only
+            let base = match &op {
+                Op::Trim(set, _) if !set.is_empty() && i % 3 == 0 => {
+                    let cs: Vec<char> = set.chars().collect();
+                    let mut edge = |rng: &mut Rng| -> String { (0..rng.below(3)).map(|_| { let c = *rng.pick(&cs); if rng.chance(1, 2) { gens::alias_mod256(rng, c) } else { c } }).collect() };
+                    let (l, r) = (edge(&mut ctx.rng), edge(&mut ctx.rng));
+                    ctx.rep.bump("low_byte_alias_inputs");
+                    format!("{l}{base}{r}")
+                }
+                _ => base,
+            };
             let ops = vec![op.clone()];
             let t = triple(ctx, &ops, &base, false);
             ctx.rep.nontrivial(&(t.text.clone(), base.clone()));
